@@ -2262,6 +2262,20 @@ Section Final.
     Unshelve. all: try exact 0; try exact (fun _ => 0).
   Qed.
 
+  (* review-fix: the location that pvFind answers with really holds k *)
+  Theorem all_findable_located : forall s k, Inv' s ->
+    (In k (abs B s) <-> exists g idx pos t, hfind' s k = Some (g, idx, pos) /\ nth_error (gens B s) g = Some t /\
+                                           bfind k (items B (getb B b0 wf0 t idx)) = Some pos).
+  Proof.
+    clear upd_bound logStart calcCapacity shift.
+    intros s k HI. split.
+    - intros Hin. assert (EX : exists loc, hfind' s k = Some loc) by (eapply hfind_complete; eauto). destruct EX as ([[g idx] pos] & E).
+      pose proof E as E2. eapply hfind_sound in E2. destruct E2 as (t & N & F & _).
+      exists g, idx, pos, t. split; [exact E|]. split; [exact N|]. eapply tfind_sound. exact F. all: try exact 0; try exact (fun _ => 0).
+    - intros (g & idx & pos & t & E & _). eapply hfind_sound in E. destruct E as (t' & _ & _ & Hin). exact Hin.
+    Unshelve. all: try exact 0; try exact (fun _ => 0); try exact b0; try exact (fun _ _ => 0).
+  Qed.
+
   Theorem traversal_once : forall s, Inv' s -> Permutation (traverse B s) (abs B s) /\ NoDup (traverse B s).
   Proof. intros s HI. eapply traverse_spec; eauto. Qed.
 
